@@ -98,3 +98,40 @@ Fixpoint q_sorted (strict : bool) (l : list Q) : bool :=
   end.
 Definition c14_mono_case (xs ys : list Q) : nat :=
   code [q_sorted true xs; q_sorted false ys; Nat.eqb (length xs) (length ys)].
+
+(* ---------------------------------------------------------------- input representations
+   AngularCoordinates / AngularDistances (and the from_3d constructors) accept any array-like:
+   float16 / float32 / float64 arrays of either byte order and any memory layout, integer arrays,
+   python sequences and scalars.  What the primitives compute on is the binary64 array of the SAME
+   values (promotion is exact, see Proofs/SphereP.v: b16_in_b32, b32_in_b64, int_in_b64), so every
+   statement above about values applies to every representation.
+
+   A binary format is (p, E, M): precision p, smallest subnormal 2^-E, values below 2^M.
+   binary16 = (11, 24, 16), binary32 = (24, 149, 128), binary64 = (53, 1074, 1024); the integers that
+   a format holds exactly are those with |n| <= 2^p. *)
+Definition in_format (p E M : Z) (x : Q) : Prop :=
+  (exists m j : Z, (0 <= j)%Z /\ (Z.abs m < 2 ^ p)%Z /\ x * inject_Z (2 ^ E) == inject_Z (m * 2 ^ j))
+  /\ Qabs x < inject_Z (2 ^ M).
+
+Definition is_b16 : Q -> Prop := in_format 11 24 16.
+Definition is_b32 : Q -> Prop := in_format 24 149 128.
+Definition is_b64 : Q -> Prop := in_format 53 1074 1024.
+
+(* executable membership test: x * 2^E is an integer whose odd part has at most p bits *)
+Fixpoint odd_part (n : positive) : positive :=
+  match n with xO q => odd_part q | _ => n end.
+Definition fmtb (p E M : Z) (x : Q) : bool :=
+  let y := Qred (x * inject_Z (2 ^ E)) in
+  Pos.eqb (Qden y) 1
+  && match Qnum y with
+     | Z0 => true
+     | Zpos n | Zneg n => Z.ltb (Zpos (odd_part n)) (2 ^ p)
+     end
+  && Qltb (Qabs x) (inject_Z (2 ^ M)).
+
+(* one container: the source values (of the source format p E M) and the values the container
+   holds / the constructor computes on.  flags: [held = source, value by value (the model: promotion
+   is the identity on values); every source value is of the source format (generator sanity);
+   every held value is a binary64 value] *)
+Definition c14_repr_case (p E M : Z) (src held : list Q) : nat :=
+  code [qlist_eqb held src; forallb (fmtb p E M) src; forallb (fmtb 53 1074 1024) held].
